@@ -49,8 +49,13 @@ Print Assumptions C01_continue_translation.
        top level of the `while True:` body before any read of it in that body (so it is a local of
        loop() that every pass assigns before using it),
      - every later assignment / augmented assignment keeps the type label of the first one,
-     - tuple assignment only as the declaration `x1, ..., xn = e1, ..., en` of n distinct NEW names at top
-       level of the setup part (plain global declarations; no swap, no temporaries),
+     - tuple assignment `x1, ..., xn = e1, ..., en` either as the declaration of n distinct NEW names at top
+       level of the setup part (plain global declarations), or (n >= 1) to names that are ALL declared already and
+       keep their types - swap, rotation, parallel assignment, at any nesting level and in the main loop: the
+       right-hand sides go to temporaries `__tmp_assign_k` local to the enclosing block, then the names are
+       assigned in order (a tuple that mixes new and declared names, or declares names inside the main loop,
+       stays outside),
+     - declared names are not spelled like a temporary (StmtGuard.is_tmp; no Python identifier is),
      - range() bounds are int-labelled, do not read the loop variable nor any name the loop
        body assigns, loop variables are fresh, never assigned, and read only inside their loop,
      - expression ids identify annotations consistently,
@@ -118,6 +123,17 @@ Example C01_stmt_preserve_nonvacuous_continue :
             cprog_exec demo_cont_sem demo_aug (info_of demo_cont) 30 3 true c = Some demo_cont_trace.
 Proof. exact demo_cont_ok. Qed.
 Print Assumptions C01_stmt_preserve_nonvacuous_continue.
+
+(* ... and by a program with tuple assignments to declared names (Fibonacci step in a for body, swap in the main
+   loop), whose translation provably starts loop() with the declaration of temporary 2 (the for body used 0 and 1). *)
+Example C01_stmt_preserve_nonvacuous_swap :
+  guard_ok demo_swap = true /\ breaks_ok demo_swap = true /\ sem_facts demo_swap_sem demo_aug demo_swap /\
+  pprog_exec demo_swap_sem demo_aug 30 2 demo_swap = Some demo_swap_trace /\
+  exists c, transl demo_swap = Some c /\
+            (exists t e r, c_loop c = NDeclTmp 2 t e :: r) /\
+            cprog_exec demo_swap_sem demo_aug (info_of demo_swap) 30 2 true c = Some demo_swap_trace.
+Proof. exact demo_swap_ok. Qed.
+Print Assumptions C01_stmt_preserve_nonvacuous_swap.
 
 (* ... and by a program whose main loop declares a local (first assignment at body level). *)
 Example C01_stmt_preserve_nonvacuous_local :
